@@ -1,10 +1,15 @@
 #!/bin/sh
 # usage: seed_detect.sh <PROP> <seed-dir>  — applies the seeded patch to /repo, runs the quick check, reverts.
+# The evidence file and the replays of the property are put back afterwards: evidence committed in /verif must
+# come from the unchanged tree.
 P=$1; D=$2
 cd /repo || exit 2
 git diff --quiet || { echo "/repo dirty"; exit 2; }
 git apply "$D/patch.diff" || { echo "patch does not apply"; exit 3; }
+cp /verif/evidence/$P.json /tmp/evidence_$P.bak 2>/dev/null
 cd /verif && ./check $P --tier quick > "$D/check_output.txt" 2>&1
 rc=$?
+for f in /verif/replays/$P-1-0.json /verif/replays/$P-1-tie.json /verif/replays/$P-1-build.json; do [ -f $f ] && { cp $f "$D/replay_example.json"; break; }; done
+cp /tmp/evidence_$P.bak /verif/evidence/$P.json 2>/dev/null
 cd /repo && git checkout -- . 
 echo "rc=$rc"; grep -c "^VIOLATION" "$D/check_output.txt"; tail -1 "$D/check_output.txt" | cut -c1-250
